@@ -191,6 +191,11 @@ func (r *SenderReport) Unmarshal(rawPacket []byte) error {
 	r.PacketCount = binary.BigEndian.Uint32(packetBody[srPacketCountOffset:])
 	r.OctetCount = binary.BigEndian.Uint32(packetBody[srOctetCountOffset:])
 
+	// reports and extensions left over from an earlier Unmarshal into the same
+	// value are not part of this packet
+	r.Reports = nil
+	r.ProfileExtensions = nil
+
 	offset := srReportOffset
 	for i := 0; i < int(h.Count); i++ {
 		rrEnd := offset + receptionReportLength
